@@ -8,7 +8,7 @@ use crate::runner::*;
 use serde_json::json;
 use std::cmp::Ordering;
 
-pub const RULE: &str = "cases = ordered pairs of versions; exhaustive over fields {0,1,2}^3 x tag in {none,0,a,a.1} x build in {none,b} (all 46,656 ordered pairs), the same with fields {0,1,MAX_SAFE}, plus seeded random pairs from the large pools; oracle = table statement of node-semver 7.6.2 diff (validated against frozen answers of the real implementation), symmetry, None iff precedence-equal, build invariance, Display = node's string; non-trivial = the two versions differ in precedence; distinct = distinct (a,b) texts";
+pub const RULE: &str = "cases = ordered pairs of versions; exhaustive over fields {0,1,2}^3 x tag in {none,0,a,a.1} x build in {none,b} (all 46,656 ordered pairs), the same with fields {0,1,MAX_SAFE}, all 62,500 ordered pairs over fields {0,1,2^63,2^64-2,2^64-1} x tag in {none,rc} (field-built versions can carry any u64), plus seeded random pairs from the large pools; oracle = table statement of node-semver 7.6.2 diff (validated against frozen answers of the real implementation), symmetry, None iff precedence-equal, build invariance, Display = node's string; non-trivial = the two versions differ in precedence; distinct = distinct (a,b) texts";
 
 /// Independent statement of node-semver 7.6.2 `diff` over model versions.
 pub fn model_diff(a: &MV, b: &MV) -> Option<&'static str> {
@@ -133,6 +133,28 @@ pub fn run(ctx: &mut Ctx) {
                         for build in ["", "b"] {
                             pool.push(MV::new(ma, mi, pa).with_pre_s(tag).with_build_s(build));
                         }
+                    }
+                }
+            }
+        }
+        for a in &pool {
+            for b in &pool {
+                if ctx.take() {
+                    judge(ctx, a, b);
+                }
+            }
+        }
+    }
+    // versions built from fields / tuples can carry any u64: arithmetic on them must not wrap or trap
+    ctx.stratum("X-extreme-fields", true);
+    {
+        let fields = [0u64, 1, 1 << 63, u64::MAX - 1, u64::MAX];
+        let mut pool = vec![];
+        for ma in fields {
+            for mi in fields {
+                for pa in fields {
+                    for tag in ["", "rc"] {
+                        pool.push(MV::new(ma, mi, pa).with_pre_s(tag));
                     }
                 }
             }
